@@ -1,3 +1,3 @@
-// rank-4 part of the views driver (see drv_views.cpp)
+// rank-4 part of the views driver (see drv_views.cpp): the view class; operator() is in drv_views_r4i.cpp / _r4e.cpp
 #include "drv_views.h"
 VIEWS_DEFINE_RANK(4)
